@@ -442,3 +442,456 @@ func TestVerif_C07_Response(t *testing.T) {
 		r.Require(k, 1)
 	}
 }
+
+// ---------------------------------------------------------------------------------------
+// Response-side clauses with the body transformations of C03 switched on.
+//
+// The limit and short-body clauses of the property do not mention an encoding, so they
+// have to hold when the gateway re-encodes the body on its way to the client: Proxy
+// `compression` (minLength below / at / above the body size, client accepting gzip in
+// several spellings, or not at all), ResponseAdaptor compress / decompress, in buffered
+// (positive and default limit) and stream (-1) mode.  What the client receives is decoded
+// (gzip) before it is compared with what the backend was scripted to send.
+
+// c07Text is a compressible, position dependent body (a truncation or a shift changes it).
+func c07Text(rng *rand.Rand, n int) []byte {
+	tag := fmt.Sprintf("%06x", rng.Intn(1<<24))
+	var b bytes.Buffer
+	b.Grow(n + 32)
+	for b.Len() < n {
+		fmt.Fprintf(&b, "%08d line of body %s;\n", b.Len(), tag)
+	}
+	return b.Bytes()[:n]
+}
+
+func c07AcceptsGzip(ae []string) bool {
+	// the sentence of the Proxy documentation: no Accept-Encoding at all, or one that
+	// names gzip
+	if len(ae) == 0 {
+		return true
+	}
+	for _, v := range ae {
+		if strings.Contains(v, "gzip") {
+			return true
+		}
+	}
+	return false
+}
+
+type c07TxVariant struct {
+	Rel     string // honest (classified against the limit later) | short (declared > sent)
+	Plain   []byte // content
+	Mode    string // cl | chunked | short
+	SendN   int    // short: wire bytes sent
+	AE      string // Accept-Encoding of the client ("-" = header absent)
+	Note    string
+	Control bool // the transformation is expected not to apply (identity client / below minLength)
+}
+
+const c07FlushSize = 32768 // one pull of the gateway's gzip reader; bodies beyond it need several
+
+// TestVerif_C07_ResponseTransformed: the response-side clauses with proxy compression or a
+// ResponseAdaptor re-encoding the body.
+func TestVerif_C07_ResponseTransformed(t *testing.T) {
+	r := kit.Start(t, "C07")
+	defer r.Finish()
+	if e2eNotReplayed(r) {
+		return
+	}
+	r.Rule("body transformation {Proxy compression with minLength 0/1/64/1000/5000, ResponseAdaptor compress, ResponseAdaptor decompress (backend body gzip-labelled)} x response mode {buffered with a positive serverMaxBodySize 3000..63000 at pool or proxy level, stream (-1), default 4 MiB} x client Accept-Encoding {gzip | 'gzip, deflate' | 'br, gzip;q=0.5' | absent | identity} x honest backend bodies (compressible text of minLength-1, minLength, minLength+1, ~2.5 KB, limit, 40-70 KB = several flushes of the gateway's gzip reader; incompressible bytes of limit, limit+1, 4*limit), length-declared or chunked x backends that declare more than they send and close (sent 0, random, declared-1, and more than one 32 KiB flush; declared above and below minLength; gzip-accepting and identity clients). The client-visible body is gzip-decoded before it is compared. distinct = (transformation, whether it applies, response mode, limit relation, backend framing, client Accept-Encoding class, outcome class)")
+	r.Assume("with a transformation on, the limit clause is decided only when the backend body, its content and the re-encoded form are all on the same side of the limit (all larger: 5xx demanded; all within: intact 200 demanded); in between, both a 5xx and an intact 200 are accepted, a 2xx with other content never")
+	r.Assume("stream mode, short backend body: the status line is on the wire before the gateway can know, so only 'no complete-looking success' is demanded: a well-framed 2xx whose body (after gzip decoding, where the gateway gzip-encoded it) ends cleanly with fewer bytes than the backend declared is a truncated success; an aborted connection, a framing error or a gzip stream that does not decode are accepted. Not decided in stream mode: ResponseAdaptor decompress (the plain chunked body has no completeness signal left) and a backend that sends no body byte at all (an empty gzip-labelled body is complete-looking by convention)")
+	be, err := e2eNewBackend()
+	if err != nil {
+		r.Inconclusive("cannot start backend: " + err.Error())
+		return
+	}
+	defer be.Close()
+	dd := &c07Dedupe{}
+	txNames := []string{"proxy-compression", "respad-compress", "proxy-compression", "respad-decompress"}
+	lmNames := []string{"buffered", "stream", "default"}
+	n := r.N(24, 360)
+	for i := 0; i < n; i++ {
+		if !r.Mine(i) {
+			continue
+		}
+		rng := r.CaseRand(i)
+		tx := txNames[(i/2)%4]
+		lm := lmNames[(i/8)%3]
+		cfg := &e2eCfg{HostNameServer: rng.Intn(2) == 1}
+		switch lm {
+		case "buffered":
+			l := int64(3000 + rng.Intn(60000))
+			switch rng.Intn(3) {
+			case 0:
+				cfg.PoolServerMax = l
+			case 1:
+				cfg.ProxyServerMax = l
+			default:
+				cfg.PoolServerMax = l
+				cfg.ProxyServerMax = []int64{-1, 1, l + 1 + int64(rng.Intn(5000))}[rng.Intn(3)]
+			}
+		case "stream":
+			switch rng.Intn(3) {
+			case 0:
+				cfg.PoolServerMax = -1
+			case 1:
+				cfg.ProxyServerMax = -1
+			default:
+				cfg.PoolServerMax = -1
+				cfg.ProxyServerMax = int64(1 + rng.Intn(5000))
+			}
+		}
+		minLen := 0
+		switch tx {
+		case "proxy-compression":
+			minLen = []int{0, 1, 64, 1000, 5000}[(i/4+rng.Intn(2))%5]
+			cfg.Compression = &minLen
+		case "respad-compress":
+			cfg.RespAd = &e2eAdaptor{Compress: true}
+		case "respad-decompress":
+			cfg.RespAd = &e2eAdaptor{Decompress: true}
+		}
+		eff, src := c07Eff([]int64{cfg.PoolServerMax, cfg.ProxyServerMax}, []string{"pool", "proxy"})
+		r.Case(i, map[string]interface{}{"cfg": cfg, "transformation": tx, "mode": lm})
+		gw, err := e2eStart(cfg, be)
+		if err != nil {
+			r.Inconclusive("gateway did not start: " + err.Error())
+			continue
+		}
+		cl := &e2eClient{addr: gw.addr}
+
+		// ---- the exchanges of this case
+		gzipAEs := []string{"gzip", "gzip, deflate", "br, gzip;q=0.5", "-"}
+		pickAE := func() string {
+			ae := gzipAEs[rng.Intn(len(gzipAEs))]
+			if ae == "-" && tx == "respad-decompress" {
+				// without the header the gateway's own transport would un-gzip the
+				// labelled backend body before the pipeline sees it
+				ae = "gzip"
+			}
+			return ae
+		}
+		pickMode := func() string { return []string{"cl", "chunked"}[rng.Intn(2)] }
+		var vs []c07TxVariant
+		honest := func(plain []byte, note string) {
+			vs = append(vs, c07TxVariant{Rel: "honest", Plain: plain, Mode: pickMode(), AE: pickAE(), Note: note})
+		}
+		if minLen >= 2 {
+			for _, d := range []int{-1, 0, 1} {
+				honest(c07Text(rng, minLen+d), "around-minlength")
+			}
+		}
+		honest(c07Text(rng, 2000+rng.Intn(1000)), "small-text")
+		honest(c07Text(rng, 40000+rng.Intn(30000)), "multi-flush-text")
+		if eff > 0 && eff != c07Default {
+			honest(c07Text(rng, int(eff)), "text-of-limit")
+			honest(c07Body(rng, int(eff)), "bytes-of-limit")
+			honest(c07Body(rng, int(eff)+1), "bytes-of-limit+1")
+			honest(c07Body(rng, 4*int(eff)), "bytes-of-4*limit")
+		}
+		if tx == "proxy-compression" {
+			vs = append(vs, c07TxVariant{Rel: "honest", Plain: c07Text(rng, 3000+rng.Intn(500)), Mode: pickMode(), AE: "identity", Note: "identity-client", Control: true})
+		}
+		// short bodies: the declared length stays within the limit, so that the short body
+		// is the only thing wrong with the response
+		capD := func(d int) int {
+			if eff > 0 && int64(d) > eff {
+				d = int(eff)
+			}
+			return d
+		}
+		short := func(plain []byte, sendN int, ae, note string, control bool) {
+			vs = append(vs, c07TxVariant{Rel: "short", Plain: plain, Mode: "short", SendN: sendN, AE: ae, Note: note, Control: control})
+		}
+		base := minLen
+		if base < 2 {
+			base = 2
+		}
+		d1 := capD(base + rng.Intn(1500))
+		short(c07Text(rng, d1), 1+rng.Intn(d1-1), "gzip", "short-random", false)
+		d2 := capD(base + rng.Intn(1500))
+		if tx == "respad-decompress" {
+			// (incompressible bytes would push the gzip-labelled wire form over the limit)
+			short(c07Text(rng, d2), d2-1, pickAE(), "short-by-one", false)
+		} else {
+			short(c07Body(rng, d2), d2-1, pickAE(), "short-by-one", false)
+		}
+		d3 := capD(c07FlushSize + 3000 + rng.Intn(30000))
+		if d3 > c07FlushSize+100 {
+			short(c07Text(rng, d3), c07FlushSize+1+rng.Intn(d3-c07FlushSize-1), pickAE(), "short-after-a-full-flush", false)
+			short(c07Text(rng, d3), c07FlushSize, "gzip", "short-at-flush-boundary", false)
+		} else {
+			short(c07Text(rng, d3), d3/2, pickAE(), "short-half", false)
+		}
+		d4 := capD(base + rng.Intn(300))
+		short(c07Text(rng, d4), 0, "gzip", "short-nothing-sent", false)
+		if tx == "proxy-compression" {
+			d5 := capD(base + 100 + rng.Intn(1500))
+			short(c07Text(rng, d5), 1+rng.Intn(d5-1), "identity", "short-identity-client", true)
+			if minLen >= 3 {
+				d6 := capD(2 + rng.Intn(minLen-2))
+				if d6 < minLen {
+					short(c07Text(rng, d6), 1+rng.Intn(d6-1), "gzip", "short-below-minlength", true)
+				}
+			}
+		}
+
+		for k, v := range vs {
+			id := fmt.Sprintf("c07t-%d-%d-%d", r.Seed(), i, k)
+			wire := v.Plain
+			hdrs := [][2]string{{"Content-Type", "text/plain"}, {"X-Resp-Id", id}}
+			if tx == "respad-decompress" {
+				wire = e2eGzip(v.Plain)
+				hdrs = append(hdrs, [2]string{"Content-Encoding", "gzip"})
+			}
+			sc := &e2eScript{Status: 200, Headers: hdrs, Body: wire, Mode: v.Mode}
+			if v.Mode == "short" {
+				// SendN was chosen on the content; scale it onto the wire form
+				sc.SendN = v.SendN
+				if sc.SendN >= len(wire) {
+					sc.SendN = len(wire) - 1
+				}
+			}
+			be.Script(id, sc)
+			qh := [][2]string{{"Host", "limits.example"}, {e2eIDHeader, id}}
+			var aeVals []string
+			if v.AE != "-" {
+				qh = append(qh, [2]string{"Accept-Encoding", v.AE})
+				aeVals = []string{v.AE}
+			}
+			q := &e2eReq{Method: "GET", Target: "/download?k=" + id, Framing: "none", Headers: qh}
+			res := cl.Do(q, func() bool { return be.Contacted(id) })
+			seen := be.Take(id)
+			r.Eval(1)
+
+			// does the configured transformation apply to this exchange (input only)?
+			declared := -1
+			if v.Mode != "chunked" {
+				declared = len(wire)
+			}
+			applies := true
+			if tx == "proxy-compression" {
+				applies = c07AcceptsGzip(aeVals) && (declared < 0 || declared >= minLen)
+			}
+			txTag := tx
+			if !applies {
+				txTag = tx + "-not-applied"
+			}
+			if v.Control && applies {
+				// the generator meant this input as one the transformation leaves alone
+				r.Inconclusive(fmt.Sprintf("harness: control variant %s: the transformation applies", v.Note))
+				continue
+			}
+			desc := map[string]interface{}{"cfg": cfg, "transformation": tx, "applies": applies, "effectiveLimit": eff, "limitFrom": src,
+				"content": e2eBrief(v.Plain), "backendWire": e2eBrief(wire), "backendMode": v.Mode, "backendSent": sc.SendN, "variant": v.Note,
+				"acceptEncoding": v.AE, "response": res.Resp, "ioErr": res.IOErr, "backendContacted": seen != nil}
+			c07Panics(r, dd, gw, desc)
+			if res.Watchdog {
+				r.Inconclusive("socket watchdog fired: " + res.IOErr + " " + res.WriteErr)
+				continue
+			}
+			resp := res.Resp
+			tag := fmt.Sprintf("%s:%s:limit-from-%s", v.Mode, txTag, src)
+			outcome := fmt.Sprintf("%d", resp.Status)
+			// decode what the client got
+			ce := strings.Join(e2eValues(resp.Headers, "Content-Encoding"), ",")
+			var content []byte
+			decodeErr := ""
+			wellFramed := resp.FramingErr == ""
+			if wellFramed {
+				switch ce {
+				case "":
+					content = resp.Body
+				case "gzip":
+					dec, err := e2eGunzip(resp.Body)
+					content = dec
+					if err != nil {
+						decodeErr = err.Error()
+					}
+				default:
+					decodeErr = "unexpected Content-Encoding " + ce
+				}
+				desc["decodedBody"] = e2eBrief(content)
+				desc["decodeErr"] = decodeErr
+			}
+			framingKind := resp.FramingErr
+			if j := strings.IndexByte(framingKind, '('); j > 0 {
+				framingKind = framingKind[:j]
+			}
+			rel := v.Rel
+
+			if v.Rel == "short" {
+				if applies && tx == "proxy-compression" {
+					r.Count("resptx_short_with_proxy_compression_applicable", 1)
+				}
+				if sc.SendN > c07FlushSize {
+					r.Count("resptx_short_after_full_flush", 1)
+				}
+				if eff >= 0 {
+					// buffered: an error status, nothing else
+					r.Count("resptx_short_"+txTag, 1)
+					r.Count("resptx_short_"+lm, 1)
+					switch {
+					case !wellFramed:
+						dd.record(r, "C07:resp:short:framing:"+framingKind+":"+tag, desc)
+						outcome = "framing-error"
+					case resp.Status < 500 || resp.Status > 599:
+						what := "status-got" + outcome + "-want5xx"
+						if resp.Status/100 == 2 {
+							what = "truncated-success"
+						}
+						dd.record(r, "C07:resp:short:"+what+":"+tag, desc)
+					default:
+						r.Count("resptx_short_withheld_"+txTag, 1)
+						r.Count("resptx_short_withheld_"+lm, 1)
+					}
+				} else {
+					// stream: no complete-looking success
+					deciding := tx != "respad-decompress" && sc.SendN > 0
+					switch {
+					case !wellFramed:
+						outcome = "aborted"
+					case resp.Status/100 != 2:
+					case decodeErr != "":
+						outcome = "2xx-undecodable"
+					default:
+						outcome = "2xx-clean-end"
+					}
+					if !deciding {
+						outcome += "(not decided)"
+						r.Count("resptx_short_stream_not_decided", 1)
+					} else {
+						r.Count("resptx_short_stream_decided_"+txTag, 1)
+						if outcome == "2xx-clean-end" {
+							dd.record(r, "C07:resp:short:truncated-success-in-stream-mode:"+tag, desc)
+						} else {
+							r.Count("resptx_short_stream_not_a_success_"+txTag, 1)
+						}
+					}
+				}
+			} else {
+				// honest backend: classify by the limit
+				sizes := []int{len(wire), len(v.Plain)}
+				if applies && tx != "respad-decompress" {
+					sizes = append(sizes, len(e2eGzip(v.Plain)))
+				}
+				over, within := eff >= 0, eff >= 0
+				for j, s := range sizes {
+					m := 0
+					if j == 2 {
+						m = 16 // the gateway's gzip writer may frame a few bytes differently
+					}
+					if int64(s-m) <= eff {
+						over = false
+					}
+					if int64(s+m) > eff {
+						within = false
+					}
+				}
+				switch {
+				case eff < 0:
+					rel = "stream"
+				case over:
+					rel = "over"
+				case within:
+					rel = "within"
+				default:
+					rel = "between"
+				}
+				intact := wellFramed && resp.Status == 200 && decodeErr == "" && bytes.Equal(content, v.Plain)
+				withheld := wellFramed && resp.Status >= 500 && resp.Status <= 599
+				bad := func(what string) { dd.record(r, "C07:resp:"+rel+":"+what+":"+tag, desc) }
+				delivered := func() string {
+					switch {
+					case decodeErr != "":
+						return "undecodable-body-delivered"
+					case len(content) < len(v.Plain):
+						return "truncated-body-delivered"
+					}
+					return "body-differs"
+				}
+				switch {
+				case !wellFramed:
+					bad("framing:" + framingKind)
+					outcome = "framing-error"
+				case rel == "over":
+					if !withheld {
+						what := "status-got" + outcome + "-want5xx"
+						if resp.Status/100 == 2 {
+							what = "oversized-body-delivered"
+							if !intact {
+								what = delivered()
+							}
+						}
+						bad(what)
+					} else {
+						r.Count("resptx_over_limit_withheld_"+txTag, 1)
+					}
+				case rel == "between":
+					if !withheld && !intact {
+						what := "status-got" + outcome + "-want200-or-5xx"
+						if resp.Status/100 == 2 {
+							what = delivered()
+						}
+						bad(what)
+					} else {
+						r.Count("resptx_between_sizes_"+map[bool]string{true: "withheld", false: "passed"}[withheld], 1)
+					}
+				default: // within, stream
+					if resp.Status != 200 {
+						bad("status-got" + outcome + "-want200")
+					} else if !intact {
+						bad(delivered())
+					} else {
+						r.Count("resptx_passed_intact_"+txTag, 1)
+						r.Count("resptx_passed_intact_"+lm, 1)
+						if len(v.Plain) > c07FlushSize {
+							r.Count("resptx_passed_intact_multi_flush", 1)
+						}
+					}
+				}
+				if intact {
+					gwCompressed := ce == "gzip" && tx != "respad-decompress"
+					gwDecompressed := ce == "" && tx == "respad-decompress"
+					if gwCompressed {
+						r.Count("resptx_gateway_compressed_"+tx, 1)
+						r.Count("resptx_gateway_compressed_"+lm, 1)
+						if v.AE == "-" {
+							r.Count("resptx_gateway_compressed_no_accept_encoding", 1)
+						}
+					}
+					if gwDecompressed {
+						r.Count("resptx_gateway_decompressed_"+lm, 1)
+					}
+					if !applies && ce == "" {
+						r.Count("resptx_compression_declined", 1)
+					}
+					outcome += "/ce=" + ce
+				}
+			}
+			r.Cover(fmt.Sprintf("resptx/%s/%s/%s/%s/%s/ae=%s/%s", txTag, lm, rel, v.Note, v.Mode, v.AE, outcome))
+			if i < 2 && (k == 0 || v.Note == "short-random") {
+				r.Sample(desc)
+			}
+		}
+		cl.Close()
+		gw.Close()
+		be.CloseIdle()
+	}
+	for _, k := range []string{
+		"resptx_short_with_proxy_compression_applicable", "resptx_short_after_full_flush",
+		"resptx_short_proxy-compression", "resptx_short_proxy-compression-not-applied", "resptx_short_respad-compress", "resptx_short_respad-decompress",
+		"resptx_short_buffered", "resptx_short_default",
+		"resptx_short_stream_decided_proxy-compression", "resptx_short_stream_decided_proxy-compression-not-applied", "resptx_short_stream_decided_respad-compress",
+		"resptx_over_limit_withheld_proxy-compression", "resptx_over_limit_withheld_respad-compress", "resptx_over_limit_withheld_respad-decompress",
+		"resptx_passed_intact_proxy-compression", "resptx_passed_intact_proxy-compression-not-applied", "resptx_passed_intact_respad-compress", "resptx_passed_intact_respad-decompress",
+		"resptx_passed_intact_buffered", "resptx_passed_intact_stream", "resptx_passed_intact_default", "resptx_passed_intact_multi_flush",
+		"resptx_gateway_compressed_proxy-compression", "resptx_gateway_compressed_respad-compress",
+		"resptx_gateway_compressed_buffered", "resptx_gateway_compressed_stream", "resptx_gateway_compressed_default",
+		"resptx_gateway_decompressed_buffered", "resptx_gateway_decompressed_stream",
+		"resptx_compression_declined",
+	} {
+		r.Require(k, 1)
+	}
+}
